@@ -551,3 +551,50 @@ func (s *PathState) forkLookup(lk *ssa.Lookup, ct *constTable, cont func(*PathSt
 	bind(s2, ct.Zero, false)
 	cont(s2)
 }
+
+// tableFns: function literals without captured variables stored in a constant table: a call through the table entry is
+// a call of that literal, interpreted inline like any other helper.
+var tableFns map[*ssa.Function]bool
+
+func collectTableFns() {
+	tableFns = map[*ssa.Function]bool{}
+	var walk func(t *Term)
+	walk = func(t *Term) {
+		if t == nil {
+			return
+		}
+		if t.Op == "fn" {
+			if f, ok := t.V.(*ssa.Function); ok && f.Parent() != nil && len(f.FreeVars) == 0 && len(f.Blocks) > 0 {
+				tableFns[f] = true
+			}
+		}
+		for _, v := range t.Fields {
+			walk(v)
+		}
+	}
+	for _, ct := range constTables {
+		for _, v := range ct.Vals {
+			walk(v)
+		}
+	}
+}
+
+// tableCallee: the function literal a dynamic call goes to when its function value is an entry of a constant table.
+func (s *PathState) tableCallee(in ssa.Instruction) *ssa.Function {
+	c, ok := in.(*ssa.Call)
+	if !ok || c.Common().IsInvoke() || c.Common().StaticCallee() != nil {
+		return nil
+	}
+	if _, isB := c.Common().Value.(*ssa.Builtin); isB {
+		return nil
+	}
+	ft := s.T(c.Common().Value)
+	if ft == nil || ft.Op != "fn" {
+		return nil
+	}
+	g, ok := ft.V.(*ssa.Function)
+	if !ok || !tableFns[g] || inlineStack[g] || inlineDepth >= maxInlineDepth {
+		return nil
+	}
+	return g
+}
